@@ -90,7 +90,7 @@ func applyReject(t *Tape, tpl int, c *CmdDecl, toks []string, cause rejectCause)
 		insert([]string{"-z", "--zzz", "-z=1", "--zzz=1", "-q", "-5", "-2.5", "-1e3", "-inf", "-0"}[t.Draw(10)])
 		return out, true
 	case rcBadInt:
-		if tpl != 3 {
+		if tpl != 3 && tpl != 11 {
 			return nil, false
 		}
 		bad := []string{"abc", "1.5", "0x10", "9223372036854775808", "1_0", "٣", "+", "-"}[t.Draw(8)]
@@ -99,6 +99,10 @@ func applyReject(t *Tape, tpl int, c *CmdDecl, toks []string, cause rejectCause)
 			form -= 2 // a value starting with a dash is only a value in an attached spelling
 		}
 		insert([][]string{{"-n=" + bad}, {"--num=" + bad}, {"-n", bad}, {"--num", bad}}[form]...)
+		if tpl == 11 && t.Draw(3) != 0 {
+			// the occurrence that does not convert is not the last one: a later, valid occurrence does not heal it
+			out = append(out, [][]string{{"-n", "5"}, {"--num=6"}, {"-n7"}}[t.Draw(3)]...)
+		}
 		return out, true
 	case rcBadBool:
 		if !hasTpl(tpl, 1, 5, 9) {
@@ -339,7 +343,7 @@ func (c07Prop) Gen(t *Tape, ph *PhaseCfg) Case {
 }
 
 func (c07Prop) genOne(t *Tape, ph *PhaseCfg) *c07Case {
-	tc := genTree(t, TreeOpts{Depth: -1, MaxDepth: ph.P["maxdepth"], Policy: 0, CB: c07Callbacks, Fancy: true})
+	tc := genTree(t, TreeOpts{Depth: -1, MaxDepth: ph.P["maxdepth"], Policy: 0, CB: c07Callbacks, Fancy: true, Templates: allTplsAndRepeatedScalar})
 	return c07Invocation(t, tc, true)
 }
 
